@@ -9,7 +9,8 @@ from ..worlds import decode_stream
 
 from engineio import packet as eio_packet
 
-SCENARIOS = ['dup-ack', 'ack-two-ns', 'two-events', 'ack-and-loss']
+SCENARIOS = ['dup-ack', 'ack-two-ns', 'two-events', 'ack-and-loss',
+             'bin-event-then-event', 'bin-ack-then-event']
 
 
 def scenario_for(name):
@@ -49,7 +50,27 @@ def scenario_for(name):
             if w.eio.state == 'connected':
                 await w.eio._receive_packet(
                     eio_packet.Packet(eio_packet.MESSAGE, frame))
-        if name == 'dup-ack':
+        stream = None
+        if name in ('bin-event-then-event', 'bin-ack-then-event'):
+            # one ordered stream (the transport does not reorder): a binary
+            # packet, then an ordinary event, while the handler / callback of
+            # the first is suspended.  (Transport writes are not suspension
+            # points: the engine.io client's send() only queues.)
+            ph = '{"_placeholder":true,"num":0}'
+            if name == 'bin-event-then-event':
+                stream = ['51-4["h",%s]' % ph, b'x', '25["h",2]']
+            else:
+                stream = ['61-1[%s]' % ph, b'x', '25["h",2]']
+
+            async def ordered():
+                for f in stream:
+                    await loop.point('arrive')
+                    if w.eio.state == 'connected':
+                        await w.eio._receive_packet(
+                            eio_packet.Packet(eio_packet.MESSAGE, f))
+            loop.create_task(ordered())
+            frames = []
+        elif name == 'dup-ack':
             frames = ['31["a"]', '31["b"]']
         elif name == 'ack-two-ns':
             frames = ['31["a"]', '3/a,1["b"]']
@@ -104,6 +125,27 @@ def judge(name, out):
         if sorted(e for e in out['hlog'] if e[0] == 'in') != \
                 [('in', (1,)), ('in', (2,))]:
             v.append(('C09/sched-handler', f'{name}: {out["hlog"]}'))
+    elif name in ('bin-event-then-event', 'bin-ack-then-event'):
+        acks = sorted(f for f in out['out'] if f[0] == 'pkt')
+        ins = sorted((e for e in out['hlog'] if e[0] == 'in'), key=repr)
+        if name == 'bin-event-then-event':
+            want = sorted([('pkt', 6, '/', 4, ['r', b'x']),
+                           ('pkt', 3, '/', 5, ['r', 2])])
+            want_in = sorted([('in', (b'x',)), ('in', (2,))], key=repr)
+            want_fired = []
+        else:
+            want = [('pkt', 3, '/', 5, ['r', 2])]
+            want_in = [('in', (2,))]
+            want_fired = [('cb/', (b'x',))]
+        if acks != want:
+            v.append(('C09/sched-event-ack', f'{name}: client sent {acks}, '
+                      f'expected {want}'))
+        if ins != want_in:
+            v.append(('C09/sched-handler', f'{name}: handler log '
+                      f'{out["hlog"]}, expected entries {want_in}'))
+        if out['fired'] != want_fired:
+            v.append(('C09/sched-callback', f'{name}: fired {out["fired"]}, '
+                      f'expected {want_fired}'))
     elif name == 'ack-and-loss':
         if len(out['fired']) > 1:
             v.append(('C09/fired-twice', f'{name}: {out["fired"]}'))
